@@ -48,7 +48,11 @@ def c12_sock(ctx, n, queries, calm=None):
     until = [ctx.real(f'until{i}', 0, 1e5) for i in range(n)]
     speed = lambda i: 0.0 if i == calm else float(i + 1)
     winds = [p.Wind(U.FPS(speed(i)), U.Radian(0.0), U.Foot(until[i])) for i in range(n)]
-    shot = p.Shot(None, None, atmo=_atmo(p), winds=winds)
+    if (n + queries) % 2:
+        shot = p.Shot(None, None, atmo=_atmo(p), winds=winds)
+    else:
+        shot = p.Shot(None, None, atmo=_atmo(p))
+        shot.winds = winds                      # through the property setter
     got_sorted = shot.winds
     if n == 0:
         # an empty list means no wind: the calculator substitutes one zero-speed wind
@@ -122,6 +126,14 @@ def c12_vector(ctx):
     m = p.Wind(U.FPS(s), U.Radian(-d)).vector
     ctx.check_eq('mirror', m.z, -v.z)
     ctx.check_eq('mirror', m.x, v.x)
+    # a Wind edited in place after it was used acts with its new values (mirroring in place, calming in place)
+    w = p.Wind(U.FPS(s), U.Radian(d))
+    first = w.vector
+    s2 = ctx.real('second_speed_fps', 0, 1e3)
+    w.velocity = U.FPS(s2)
+    w.direction_from = U.Radian(-d)
+    ctx.check_eq('edited_wind_acts_with_its_new_values', w.vector.z, -(s2 * M.sin(d)))
+    ctx.check_eq('edited_wind_acts_with_its_new_values', w.vector.x, s2 * M.cos(d))
     # zero speed is no wind
     z = p.Wind(U.FPS(0.0), U.Radian(d)).vector
     ctx.check('zero_speed_is_zero_vector', z.x == 0 and z.y == 0 and z.z == 0)
